@@ -603,15 +603,21 @@ PROBE = {'kT_table', 'fint_table', 'k0_other_conn', 'nl:fast', 'nl:late_first', 
 
 
 def call(op, obj):
-    try:
-        import warnings
-        with warnings.catch_warnings():
-            warnings.simplefilter('ignore')
-            return op(obj)
-    except InputMutated as e:
-        return e
-    except Exception as e:
-        return e
+    from scipy.sparse.linalg import ArpackError
+    for attempt in range(3):            # a break-down of ARPACK (start vector not reachable through the package) is retried
+        try:
+            import warnings
+            with warnings.catch_warnings():
+                warnings.simplefilter('ignore')
+                return op(obj)
+        except InputMutated as e:
+            return e
+        except ArpackError as e:
+            last = e
+            continue
+        except Exception as e:
+            return e
+    return last
 
 
 def check_redef(case):
